@@ -10,6 +10,11 @@ func (s *XModel) verifyInputs(tx *pb.Transaction) error {
 	//确保tx.TxInputs里面声明的版本和本地model是match的
 	for _, txIn := range tx.TxInputsExt {
 		verData, err := s.GetUncommited(txIn.Bucket, txIn.Key) //because previous txs in the same block write into batch cache
+		if err == nil && len(tx.Blockid) == 0 {
+			// an unconfirmed tx has a batch of its own: the batch cache belongs to
+			// the last block and may be stale, only the stored version counts
+			verData, err = s.Get(txIn.Bucket, txIn.Key)
+		}
 		if err != nil {
 			return err
 		}
